@@ -66,6 +66,7 @@ type FaultSpec struct {
 	Kind  string `json:"kind"`            // err, eio, enospc, eacces, torn, crash, crash_after, stall, lost, miss
 	Arg   int64  `json:"arg,omitempty"`   // torn length / stall ms
 	Match string `json:"match,omitempty"` // expected "kind target" substring (divergence check)
+	Path  bool   `json:"path,omitempty"`  // with Times > 1: the repeats hit later mutations of the SAME target (a file that stays unwritable) instead of the same kind
 	After string `json:"after,omitempty"` // when set, Op counts from the task's marker of this name (see Sim.Mark)
 	Times int    `json:"times,omitempty"` // sticky: also fail the next Times-1 ops of same kind by that task
 }
@@ -378,8 +379,14 @@ func (s *Sim) Sleep(ctx context.Context, d time.Duration) {
 
 func (s *Sim) pickFault(t *Task, kind, target string) *FaultSpec {
 	// sticky continuation
+	if n := s.sticky[t.Name+"|@"+target]; n > 0 && IsMutation(kind) {
+		// this path stays unwritable for the task (FaultSpec.Path)
+		k := t.Name + "|@" + target
+		s.sticky[k] = n - 1
+		return &FaultSpec{Task: t.Name, Op: t.OpCount, Kind: s.stickyKind[k]}
+	}
 	for k, n := range s.sticky {
-		if n > 0 && strings.HasPrefix(k, t.Name+"|") && strings.HasPrefix(kind, strings.TrimPrefix(k, t.Name+"|")) {
+		if n > 0 && !strings.Contains(k, "|@") && strings.HasPrefix(k, t.Name+"|") && strings.HasPrefix(kind, strings.TrimPrefix(k, t.Name+"|")) {
 			s.sticky[k] = n - 1
 			return &FaultSpec{Task: t.Name, Op: t.OpCount, Kind: s.stickyKind[k]}
 		}
@@ -403,7 +410,11 @@ func (s *Sim) pickFault(t *Task, kind, target string) *FaultSpec {
 			s.Diverged = append(s.Diverged, fmt.Sprintf("fault %s@%s#%d expected %q got %q", f.Kind, f.Task, f.Op, f.Match, kind+" "+target))
 			continue
 		}
-		if f.Times > 1 {
+		if f.Times > 1 && f.Path {
+			k := t.Name + "|@" + target
+			s.sticky[k] = f.Times - 1
+			s.stickyKind[k] = f.Kind
+		} else if f.Times > 1 {
 			k := t.Name + "|" + kindClass(kind)
 			s.sticky[k] = f.Times - 1
 			s.stickyKind[k] = f.Kind
